@@ -205,12 +205,13 @@ impl<'a> DocSymEmitter<'a> {
             }
             Token::Segment { id, block, .. } => {
                 if let Some(b) = block {
-                    if let Ok(Some(symbol_id)) = self
+                    // (the lock is released before the block is visited: a `.segment` block inside it takes it again)
+                    let segment_name = self
                         .codegen
                         .lock()
                         .unwrap()
-                        .evaluate_expression_as_string(id, false)
-                    {
+                        .evaluate_expression_as_string(id, false);
+                    if let Ok(Some(symbol_id)) = segment_name {
                         self.emit_document_symbols(&b.inner, Some(&Identifier::new(symbol_id)))
                     } else {
                         vec![]
